@@ -22,6 +22,7 @@ func crossSpecs(sh []int, steps []int, emit func(string)) {
 }
 
 func genC02(tier string, r *rng, emit func(string)) {
+	genXKinds("C02", emit)
 	// T[:] (an empty slice list): a view of everything whose shape and strides are its own - later
 	// operations on the parent or on the view, and handing the view back, leave the other intact
 	for _, c := range []string{"new:rm:2,3:0;slice:0:-;reshape:0:3,2", "new:rm:2,3:0;slice:0:-;reshape:1:6", "new:rm:3,4:0;slice:0:-;ret:1;slice:0:1.2.0/1.4.2",
